@@ -711,6 +711,12 @@ func (c *codecV2) DecodeResponse(req *tikvrpc.Request, resp *tikvrpc.Response) (
 				return nil, err
 			}
 		}
+	case tikvrpc.CmdGetHealthFeedback:
+		r := resp.Resp.(*kvrpcpb.GetHealthFeedbackResponse)
+		r.RegionError, err = c.decodeRegionError(r.RegionError)
+		if err != nil {
+			return nil, err
+		}
 	case tikvrpc.CmdSplitRegion:
 		r := resp.Resp.(*kvrpcpb.SplitRegionResponse)
 		r.RegionError, err = c.decodeRegionError(r.RegionError)
